@@ -39,6 +39,43 @@ pub struct Run<V> {
     pub out: Out<V>,
     pub steps: u64,
     pub tokens: u64,
+    /// bytes requested from the allocator by this thread during the call (harness-owned counting allocator)
+    pub alloc_bytes: u64,
+    pub alloc_count: u64,
+}
+
+// ---- counting allocator: a deterministic measure of work that does not depend on the hook points
+pub struct CountingAlloc;
+thread_local! {
+    static ALLOC_BYTES: std::cell::Cell<u64> = const { std::cell::Cell::new(0) };
+    static ALLOC_COUNT: std::cell::Cell<u64> = const { std::cell::Cell::new(0) };
+}
+unsafe impl std::alloc::GlobalAlloc for CountingAlloc {
+    unsafe fn alloc(&self, l: std::alloc::Layout) -> *mut u8 {
+        let _ = ALLOC_BYTES.try_with(|c| c.set(c.get().wrapping_add(l.size() as u64)));
+        let _ = ALLOC_COUNT.try_with(|c| c.set(c.get().wrapping_add(1)));
+        std::alloc::System.alloc(l)
+    }
+    unsafe fn dealloc(&self, p: *mut u8, l: std::alloc::Layout) {
+        std::alloc::System.dealloc(p, l)
+    }
+    unsafe fn realloc(&self, p: *mut u8, l: std::alloc::Layout, n: usize) -> *mut u8 {
+        let _ = ALLOC_BYTES.try_with(|c| c.set(c.get().wrapping_add(n as u64)));
+        let _ = ALLOC_COUNT.try_with(|c| c.set(c.get().wrapping_add(1)));
+        std::alloc::System.realloc(p, l, n)
+    }
+}
+fn alloc_now() -> (u64, u64) {
+    (ALLOC_BYTES.try_with(|c| c.get()).unwrap_or(0), ALLOC_COUNT.try_with(|c| c.get()).unwrap_or(0))
+}
+
+/// Allocation bound for C02, independent of where the hook points are: every allocation happens inside some
+/// loop iteration or call, and no step of this code allocates more than a handful of times, so more than
+/// 8 x (4096 + 256 len) allocations in one call mean more than 4096 + 256 len steps. (The unchanged tree
+/// stays below 1/10 of it: its parsers clone the accumulated left operand once per operator, which is
+/// quadratic in the worst case but within the statement's bound at 256 characters.)
+pub fn alloc_bound(input_chars: usize) -> u64 {
+    8 * (4096 + 256 * input_chars as u64)
 }
 
 pub fn budget_for(input: &str) -> u64 {
@@ -92,7 +129,9 @@ pub fn run_with_budget<D: Dom>(input: &str, at: &D::V, budget: u64) -> Run<D::V>
     SLOTS[slot].seq.fetch_add(1, Ordering::SeqCst);
     verif_hooks::reset(budget);
     IN_SUBJECT.with(|c| c.set(true));
+    let (b0, n0) = alloc_now();
     let r = catch_unwind(AssertUnwindSafe(|| D::call(input, at)));
+    let (b1, n1) = alloc_now();
     IN_SUBJECT.with(|c| c.set(false));
     let steps = verif_hooks::steps();
     let tokens = verif_hooks::tokens_requested();
@@ -106,7 +145,13 @@ pub fn run_with_budget<D: Dom>(input: &str, at: &D::V, budget: u64) -> Run<D::V>
             Err(msg) => Out::Panic(msg),
         },
     };
-    Run { out, steps, tokens }
+    Run {
+        out,
+        steps,
+        tokens,
+        alloc_bytes: b1.wrapping_sub(b0),
+        alloc_count: n1.wrapping_sub(n0),
+    }
 }
 
 pub fn run<D: Dom>(input: &str, at: &D::V) -> Run<D::V> {
